@@ -193,6 +193,20 @@ CHECKS["C19"] = dict(
    note=TB + "Sorting is driven on numeric key columns with distinct keys; nested-table columns are not driven; each program runs on three of the eight types.",
    technique="TLA+ column-aligned table ADT checked by TLC; every program replayed on real bnpdataclass tables",
    design="6/C19")
+CHECKS["C20"] = dict(
+   category="model_checking",
+   text="spec/Frame.tla: a heap of content digests on which a public call leaves every pre-existing handle unchanged (action property "
+        "FrameCondition, model-checked) and returns a result that is a function of the argument contents; only explicit assignment "
+        "changes a handle. The same frame condition is an action property of Table.tla (C04/C05) and the pool comparisons of C07/C19 "
+        "check operands after every step. Here a registry of about 45 public functions/methods plus field inspection and write of "
+        "lazily read chunks of every format (non-canonical, CRLF, signed and scientific numbers, BED12 list columns, VCF genotype "
+        "columns) is called on generated arguments; every call is recorded as an event (argument digests before/after, result "
+        "digests of two calls, written bytes before/after inspection, modified write of an inspected vs a fresh chunk) and TLC decides "
+        "each event against Frame.tla (Trace_C20).",
+   note=TB + "Digests are of decoded content (values, encodings, row lengths; written bytes for file chunks). Arguments are sampled (seeded), not enumerated: "
+        "the exhaustive part of this property lives in the Frame/OperandsUnchanged/AssignLocal action properties of Table.tla, Records.tla, CharArray.tla.",
+   technique="TLA+ frame-condition spec model-checked by TLC; TLC trace validation of recorded calls (digests before/after, results of repeated calls)",
+   design="6/C20")
 PENDING = {}
 def main():
     props = [json.loads(l)["id"] for l in open(os.path.join(HERE, "properties.jsonl"))]
